@@ -146,10 +146,10 @@ def graph_inputs(tier, seed):
     else:
         out += [("G1-exhaustive-n5", s) for s in all_closed(5)]
         out += [("G1-sample-n6", s) for s in sample_closed(rng, 6, 20000)]
-        for _ in range(15000):
-            n = rng.randint(6, 18)
+        for _ in range(10000):
+            n = rng.randint(6, 16)
             out.append(("G2-random", rand_closed(rng, n)))
-        for _ in range(15000):
-            n = rng.randint(6, 40)
+        for _ in range(10000):
+            n = rng.randint(6, 28)
             out.append(("G2-template", rand_template(rng, n)))
     return out
